@@ -109,6 +109,8 @@ pub(crate) fn validate_password(password: &str) -> ServerResult {
 pub(crate) fn validate_username(name: &str) -> ServerResult {
     if name.len() < 3 {
         Err(ErrorCode::NameTooShort.into())
+    } else if !crate::utilities::is_valid_name(name) {
+        Err(ErrorCode::NameInvalid.into())
     } else {
         Ok(())
     }
